@@ -447,7 +447,10 @@ def hist_equal(a, b, exact):
                 return f'instant {k}: {key} {x[key]!r} vs {y[key]!r}'
         for key in ('pos', 'spd', 'acc', 'tq', 'dtq', 'ltq'):
             sc_ = max([abs(v) for v in x[key] + y[key]] + [1e-12])
+            sc_ = max([abs(v) for v in x[key] + y[key] if v == v] + [1e-12])
             for i, (u, v) in enumerate(zip(x[key], y[key])):
+                if u != u and v != v:
+                    continue              # not a number on both sides: the same (missing) sample
                 if (u != v) if exact else not close(u, v, 1e-6 * sc_, rel=1e-6):
                     return f'instant {k}: {key} of element {i}: {u!r} vs {v!r}'
     return None
